@@ -112,6 +112,34 @@ pub fn extent_scenarios(counts: &[usize], stride: u64) -> Vec<Scenario> {
     v
 }
 
+/// sparse files whose data islands straddle the 2 GiB and 4 GiB offsets (where a 32-bit or signed 32-bit offset,
+/// length or block number wraps), ending in data / ending in a hole. A few KiB on disk.
+pub fn far_contents() -> Vec<(&'static str, Content)> {
+    const G: u64 = 1 << 30;
+    vec![
+        ("ends-in-data", Content::Islands { len: 4 * G + MIB + 4097, at: vec![(0, 4096), (2 * G - 4096, 8192), (4 * G - 4096, 8192), (4 * G + MIB, 4097)], seed: 51 }),
+        ("ends-in-hole", Content::Islands { len: 5 * G + 123, at: vec![(8192, 100), (2 * G - 1, 2), (4 * G - 1, 2), (4 * G + 3 * MIB + 5, 70000)], seed: 52 }),
+    ]
+}
+
+pub fn far_scenarios() -> Vec<Scenario> {
+    let mut v = vec![];
+    for (cn, c) in far_contents() {
+        for d in drivers() {
+            for (bn, bflag) in [("1M", vec!["--block-size", "1MB"]), ("1G", vec!["--block-size", "1GB"]), ("MAX", vec!["--no-progress"])] {
+                for pa in [false, true] {
+                    let mut s = mk(&format!("far-{}-B{}-{}-{}", cn, bn, d, if pa { "onto-small-file" } else { "fresh" }), c.clone(), d, "2", &bflag, false);
+                    if pa {
+                        s.tree.push(Entry::gen("g", 5000, 98));
+                    }
+                    v.push(s);
+                }
+            }
+        }
+    }
+    v
+}
+
 pub fn run(ctx: &Ctx) -> Report {
     crate::explore::SNAP_BEFORE.store(false, std::sync::atomic::Ordering::Relaxed);
     let mut rep = Report::new(
@@ -137,6 +165,10 @@ pub fn run(ctx: &Ctx) -> Report {
     }
     let st = scen_batch(ctx, sc, &[Policy::P0], j);
     rep.part("hole-size scaling (5 x 4 KiB of data, holes of 1 / 8 / 64 MiB)", st, serde_json::json!({}));
+    let sc = far_scenarios();
+    let n = sc.len();
+    let st = scen_batch(ctx, sc, &[Policy::P0], j);
+    rep.part("data islands straddling the 2 GiB and 4 GiB offsets (files of 4-5 GiB, a few KiB allocated)", st, serde_json::json!({"scenarios": n}));
     // several sparse sources in one run where extent mapping is unsupported for the first only (as if it lived on
     // another file system): the later ones must still be copied sparsely
     {
